@@ -527,6 +527,13 @@ def run(tier):
     rule_R7(res, prog)
     rule_R8(res, prog)
     rule_R9(res, prog)
+    # RFC 8446 5.4: a record may carry any amount of zero padding up to the record size limit; the receiver's padding scan
+    # must count it without wrapping (decided by the delivered-content rule of C02, run here for the interoperability clause
+    # `application data of any length round-trips intact`: a peer that pads with >= 256 bytes is standards-conforming)
+    from rules import C02
+    C02.rule_R7(res, prog, prop=PROP, rid="C10.R10")
+    rule_R11(res, prog)
+    rule_R12(res, prog)
     return res.finish()
 
 
@@ -834,4 +841,154 @@ def rule_R9(res, prog):
                                                      ("ssl->msn is stored from a non-constant at line(s) %s" % bad) if bad else
                                                      "the header is written without ssl->msn = 0 on the path"), file=fn.relfile, line=(bad or [fn.line])[0])
     res.instance(rid, "writeHelloVerifyRequest: ssl->msn = 0 on every path to the header (%d store(s))" % len(stores), f_ is None, finding=f_)
+    res.floor(rid, 1)
+
+
+def rule_R11(res, prog):
+    """'completes the handshake ... including after resumption' when the flight does not fit the buffer: the TLS 1.3 flight
+    encoders are RE-ENTRANT - a tls13Write* call may return SSL_FULL, the buffer is enlarged and the same case of
+    tls13EncodeResponseClient/Server runs again from its top, writing every message again (the flight list entries are then
+    re-pointed into the new buffer).  So a session field that decides WHETHER a message is written must keep its value until
+    no write of that pass can fail any more: for every store to a field F (other than the dispatching hsState) that some
+    branch of the function tests, if a tls13Write* call is still reachable after the store, then no tls13Write* call guarded
+    by a test of F may lie on a path through the store (before or after it) - the second pass would skip or add it."""
+    from sa import cfgutil as cu
+    rid = "C10.R11"
+    res.rule(rid, "TLS 1.3 flight encoders are re-entrant: a field that selects the messages of a flight is not changed while a write can still fail")
+    n = 0
+    for name in ("tls13EncodeResponseClient", "tls13EncodeResponseServer"):
+        lst = prog.by_name.get(name)
+        if not lst:
+            continue
+        fn = lst[0]
+        gf = cu.guard_facts(fn)
+        tested = {}
+        for b in fn.blocks:
+            t = b.get("term")
+            if t and "c" in t:
+                for m in walk(t["c"]):
+                    if m.get("k") == "mem":
+                        tested.setdefault(cu.ftext(m), t.get("ln"))
+
+        def is_write(x):
+            return any(m.get("k") == "call" and (m.get("fn") or "").startswith("tls13Write") for m in walk(x))
+        succ = {b["id"]: [sc.get("b") for sc in b["succ"] if sc.get("b") is not None] for b in fn.blocks}
+
+        def reach(src):
+            seen, st = set(), list(succ.get(src, []))
+            while st:
+                q = st.pop()
+                if q in seen:
+                    continue
+                seen.add(q)
+                st.extend(succ.get(q, []))
+            return seen
+        writes = [(b["id"], ln) for b in fn.blocks for i, ln, x in cu.block_exprs(b) if is_write(x)]
+        for b in fn.blocks:
+            for i, ln, x in cu.block_exprs(b):
+                for m in walk(x):
+                    if not (m.get("k") == "bin" and m["op"].endswith("=") and m["op"] not in ("==", "!=", "<=", ">=")):
+                        continue
+                    l = strip(m["l"])
+                    if l is None or l.get("k") != "mem":
+                        continue
+                    F = cu.ftext(l)
+                    if F not in tested or F == "ssl->hsState":
+                        continue
+                    n += 1
+                    later = cu.escapes(fn, (b["id"], i), lambda y: False, target_expr=is_write)
+                    bad = None
+                    if later is not None:
+                        after = reach(b["id"]) | {b["id"]}
+                        for (wb, wln) in writes:
+                            guarded = any(F in txt for (txt, tr) in gf.get(wb, ()))
+                            if guarded and (wb in after or b["id"] in reach(wb)):
+                                bad = (wln, later[-1][1])
+                                break
+                    f_ = None
+                    if bad is not None:
+                        f_ = Finding(PROP, rid, fn.name, "message selector changed while the flight can still fail to fit",
+                                     "%s:%s %s(): %s is stored while the tls13Write* call at line %s can still return SSL_FULL, and the message "
+                                     "written at line %s is guarded by a test of that field: the retry on the enlarged buffer takes the other "
+                                     "branch, the message is not written again, its flight entry keeps pointing into the freed buffer "
+                                     "(use after free when the flight is encrypted) and the peer receives a flight without it" % (
+                                         fn.relfile, ln, fn.name, F, bad[1], bad[0]), file=fn.relfile, line=ln)
+                    res.instance(rid, "%s:%s store to %s (tested at line %s) leaves the flight re-encodable" % (fn.name, ln, F, tested[F]),
+                                 bad is None, finding=f_)
+    res.floor(rid, 1)
+
+
+def rule_R12(res, prog):
+    """RFC 8446 5.1/5.4 'zero-length fragments of Application Data MAY be sent' / 'if a receiving implementation does not find
+    a non-zero octet in the cleartext, it MUST terminate the connection': after the TLS 1.3 padding scan (a loop over record
+    bytes that stops at the first non-zero octet or at the start of the plaintext) the `no non-zero octet` alert is decided
+    by LOOKING AT the octet the scan stopped on - a decision on the position alone also refuses the legal record whose
+    content is empty (the content-type octet is then the first octet), which a conforming peer may send at any time."""
+    from sa import cfgutil as cu
+    rid = "C10.R12"
+    res.rule(rid, "TLS 1.3 padding scan: the `all zero` alert is decided on the octet the scan stopped at, not on its position (empty application data records are legal)")
+    lst = prog.by_name.get("matrixSslDecodeTls13")
+    if not lst:
+        if prog.defined("USE_TLS_1_3"):
+            raise AnalysisBroken("C10.R12: matrixSslDecodeTls13 vanished")
+        res.floor(rid, 0)
+        return
+    fn = lst[0]
+    succ = {b["id"]: [sc.get("b") for sc in b["succ"] if sc.get("b") is not None] for b in fn.blocks}
+
+    def reach(src):
+        seen, st = set(), list(succ.get(src, []))
+        while st:
+            q = st.pop()
+            if q in seen:
+                continue
+            seen.add(q)
+            st.extend(succ.get(q, []))
+        return seen
+    rmap = {b["id"]: reach(b["id"]) for b in fn.blocks}
+
+    def derefs(c):
+        return any(m.get("k") == "un" and m.get("op") == "*" and "char" in (m.get("t") or "") for m in walk(c))
+    heads = [b for b in fn.blocks if b["id"] in rmap[b["id"]] and b.get("term") and "c" in b["term"] and derefs(b["term"]["c"])]
+    n = 0
+    for h in heads:
+        loop = set(k for k in rmap[h["id"]] if h["id"] in rmap[k]) | {h["id"]}
+        exits = set(s for k in loop for s in succ[k] if s not in loop)
+        # walk the condition-only blocks behind the exit
+        stack = [(e, ()) for e in exits]
+        seen = set()
+        while stack:
+            bid, atoms = stack.pop()
+            if (bid, atoms) in seen or len(atoms) > 6:
+                continue
+            seen.add((bid, atoms))
+            b = fn.bmap[bid]
+            els = cu.block_exprs(b)
+            t = b.get("term")
+            body = [x for (i, ln, x) in els if not (t is not None and "c" in t and x is t["c"])]
+            st_err = None
+            for x in body[:1]:
+                for m in walk(x):
+                    if m.get("k") == "bin" and m["op"] == "=" and cu.ftext(strip(m["l"]) or {}) == "ssl->err" and (strip(m["r"]) or {}).get("k") == "int":
+                        st_err = (els[0][1], strip(m["r"])["v"])
+            if st_err is not None and atoms:
+                n += 1
+                ok = any("*" in txt for (txt, tr) in atoms)
+                f_ = None
+                if not ok:
+                    f_ = Finding(PROP, rid, fn.name, "empty application data record refused",
+                                 "%s:%s matrixSslDecodeTls13(): after the padding scan the alert %d is raised on %s alone, without looking at the "
+                                 "octet the scan stopped on: a record with empty content (content type octet first, legal for application data, "
+                                 "RFC 8446 5.1) is taken for `no non-zero octet` and the connection is torn down" % (
+                                     fn.relfile, st_err[0], st_err[1], " && ".join("%s%s" % ("" if tr else "!", txt) for (txt, tr) in atoms)),
+                                 file=fn.relfile, line=st_err[0])
+                res.instance(rid, "matrixSslDecodeTls13:%s alert after the padding scan under %s" % (
+                    st_err[0], " && ".join("%s%s" % ("" if tr else "!", txt) for (txt, tr) in atoms)), ok, finding=f_)
+                continue
+            if body:
+                continue            # ordinary code: the scan's verdict has been taken
+            if t is not None and "c" in t and len(b["succ"]) == 2:
+                for k, sc in enumerate(b["succ"]):
+                    if sc.get("b") is not None:
+                        stack.append((sc["b"], atoms + tuple((txt, tr) for (txt, tr, nd) in cu._cond_atoms(t["c"], k == 0))))
     res.floor(rid, 1)
